@@ -90,17 +90,17 @@ def esc_oracle(case, impl):
         return "escape hook returned %s" % impl
     s = cps(unhex(v[2]))
     out = cps(unhex(impl))
+    # What the property states: the text stays inside the literal/comment it was put in.  (That the
+    # payload read back equals the flattened text is proved of the model; a generator that showed a
+    # description differently would not violate C17, so the payload is not compared here.)
     for machine, st, flat in ESC_TEXT_KINDS[kind]:
         fin, evs, _ = SL.run(machine, st, out)
-        want = flatten(s) if flat else s
         if fin != st:
             return ("%s: after the escaped text the %s lexer is in state %s, not back in %s (the literal does not "
                     "close where the generator closes it)" % (kind, machine, fin, st))
         if not SL.is_data(evs):
             bad = [e for e in evs if e[0] not in ("L", "Q")][:3]
             return "%s: escaped text is not read as literal payload only by the %s lexer: %r" % (kind, machine, bad)
-        if machine != "sh" and SL.lits(evs) != want:
-            return "%s: payload read back differs from the text (newlines flattened=%s)" % (kind, flat)
         if machine == "sh":
             # second level: the word's payload inside [description] and inside a ':'-separated field
             pay = SL.lits(evs)
@@ -108,8 +108,6 @@ def esc_oracle(case, impl):
                 f2, e2, _ = SL.run("zspec", st2, pay)
                 if f2 != st2 or not all(k == "L" for k, _ in e2):
                     return "%s: at the _arguments spec level (%s) the text is not literal payload only" % (kind, st2)
-                if SL.lits(e2) != want:
-                    return "%s: spec-level payload differs from the flattened text" % kind
     return None
 
 
@@ -139,6 +137,33 @@ def gen_esc(tier, rng):
         L = rng.choice([4, 5, 6, 8, 13, 21, 40])
         t = "".join(rng.choice(ALPHA) for _ in range(L))
         cases.append("(esc %s %s)" % (rng.choice(ESC_KINDS), hexs(t)))
+    return cases
+
+
+# ----------------------------------------------------------------- strreplace: the model of str::replace itself
+def strreplace_oracle(case, impl):
+    v = sx_parse(case)
+    if len(v) != 4:
+        return None
+    p, r, s = (unhex(x).decode("utf-8") for x in v[1:])
+    want = hexs(s.replace(p, r))      # python's str.replace: all non-overlapping matches, left to right
+    if impl != want:
+        return "str::replace differs from left-to-right non-overlapping replacement: expected %s got %s" % (want, impl)
+    return None
+
+
+def gen_strreplace(tier, rng):
+    cases = []
+    al = ["a", "b", "\u00e9"]
+    pats = ["", "a", "b", "aa", "ab", "aba", "\u00e9", "a\u00e9"]
+    reps = ["", "a", "ba", "aa", "x", "\u00e9\u00e9"]
+    maxlen = 5 if tier == "quick" else 7
+    for L in range(maxlen + 1):
+        for t in itertools.product(al, repeat=L):
+            for p in pats:
+                if L == maxlen and rng.random() < 0.6:
+                    continue
+                cases.append("(strreplace %s %s %s)" % (hexs(p), hexs(rng.choice(reps)), hexs("".join(t))))
     return cases
 
 
@@ -453,7 +478,12 @@ def streams(tier, rng):
     for c in esc:
         k = c.split(" ")[1]
         kinds[k] = kinds.get(k, 0) + 1
+    strrep = gen_strreplace(tier, rng)
     return [
+        Stream("strreplace", strrep, oracle=strreplace_oracle, area="aottext",
+               nontrivial=lambda c, r: unhex(sx_parse(c)[1]) in unhex(sx_parse(c)[3]),
+               describe={"what": "Rust str::replace vs the model's replace (multi-character and empty patterns, "
+                                 "overlapping candidates), python str.replace as the oracle", "cases": len(strrep)}),
         Stream("lexport", lexport, area="aottext",
                describe={"what": "python port of the lexer machines vs the extracted Coq machines", "cases": len(lexport)}),
         Stream("esc", esc, oracle=esc_oracle, area="aottext", nontrivial=esc_nontrivial,
